@@ -65,7 +65,11 @@ def run(ctx):
         if i is not None:
             peer = (b"B" if cls == "A" else b"A" if cls == "B" else b"S") + G.Base.scalarmult(7 + k).to_bytes()
             if k % 4 == 3:
-                peer = peer[:1] + r.t.objs[i].outbound_message       # reflection of the message the blob describes
+                # reflection of the message the blob describes: read from a SIBLING restored from the same state, so
+                # that the instance under test is not touched before its finish()
+                j = r.restore("r-sibling", cls, ps, data, fields)
+                if j is not None:
+                    peer = peer[:1] + r.t.objs[j].outbound_message
             r.start("r", b"")                                        # a restored instance never sends again
             r.serialize("r")                                         # and serializes to the same data
             r.finish("r", peer)
